@@ -15,6 +15,8 @@ import (
 	"github.com/wundergraph/graphql-go-tools/execution/engine"
 	"github.com/wundergraph/graphql-go-tools/execution/graphql"
 	"github.com/wundergraph/graphql-go-tools/v2/pkg/astnormalization"
+	"github.com/wundergraph/graphql-go-tools/v2/pkg/astparser"
+	"github.com/wundergraph/graphql-go-tools/v2/pkg/astprinter"
 	"github.com/wundergraph/graphql-go-tools/v2/pkg/astvalidation"
 	"github.com/wundergraph/graphql-go-tools/v2/pkg/engine/datasource/graphql_datasource"
 	"github.com/wundergraph/graphql-go-tools/v2/pkg/engine/plan"
@@ -226,6 +228,16 @@ type Admission struct {
 // Admit replays exactly the normalization/validation calls ExecutionEngine.Execute makes
 // before variable validation, using only exported API.
 func (r *Rig) Admit(query string, variables []byte, operationName string) (a Admission) {
+	return r.admit(query, variables, operationName, true)
+}
+
+// AdmitNoRemap stops before the VariablesMapper stage, so that the variable names of the
+// document are the keys of Request.Variables.
+func (r *Rig) AdmitNoRemap(query string, variables []byte, operationName string) (a Admission) {
+	return r.admit(query, variables, operationName, false)
+}
+
+func (r *Rig) admit(query string, variables []byte, operationName string, remap bool) (a Admission) {
 	req := &graphql.Request{Query: query, Variables: variables, OperationName: operationName}
 	a.Request = req
 	defer func() {
@@ -273,6 +285,10 @@ func (r *Rig) Admit(query string, variables []byte, operationName string) (a Adm
 		a.Err = res.Errors
 		return a
 	}
+	if !remap {
+		a.Stage = ""
+		return a
+	}
 	a.Stage = "remap"
 	var rep operationreport.Report
 	a.Remap = astnormalization.NewVariablesMapper().NormalizeOperation(req.Document(), r.Schema.Document(), &rep)
@@ -282,6 +298,11 @@ func (r *Rig) Admit(query string, variables []byte, operationName string) (a Adm
 	}
 	a.Stage = ""
 	return a
+}
+
+// PrintOperation prints the (normalized) operation document of an admitted request.
+func (a Admission) PrintOperation() (string, error) {
+	return astprinter.PrintString(a.Request.Document())
 }
 
 // ValidateVariables calls the VariablesValidator directly on an admitted request, the way
@@ -295,4 +316,20 @@ func (r *Rig) ValidateVariables(a Admission, disableContent bool) (err error, pa
 	}()
 	v := variablesvalidation.NewVariablesValidator(variablesvalidation.VariablesValidatorOptions{DisableExposingVariablesContent: disableContent})
 	return v.ValidateWithRemap(req.Document(), r.Schema.Document(), req.Variables, a.Remap), ""
+}
+
+// ValidateRaw calls VariablesValidator.Validate on the operation as written (no
+// normalization: no list coercion, no default injection) and the variables as sent.
+func (r *Rig) ValidateRaw(query string, variables []byte) (err error, panicked string) {
+	defer func() {
+		if p := recover(); p != nil {
+			panicked = fmt.Sprintf("%v\n%s", p, debug.Stack())
+		}
+	}()
+	op, rep := astparser.ParseGraphqlDocumentString(query)
+	if rep.HasErrors() {
+		return rep, ""
+	}
+	v := variablesvalidation.NewVariablesValidator(variablesvalidation.VariablesValidatorOptions{})
+	return v.Validate(&op, r.Schema.Document(), variables), ""
 }
